@@ -129,7 +129,8 @@ def run(ctx: Ctx) -> None:
     ctx.assumptions = ["learners (create_learners / adaptive) are not driven in this round", "sequential execution",
                        "stored = unpicklable element files / persisted dict entries, observed independently of pipefunc"]
     check_slices(ctx)
-    scenarios = ["outer", "consumer", "reduceother"] if quick else ["outer", "zip", "consumer", "reduceother", "multi"]
+    scenarios = ["outer", "consumer", "reduceother", "internalfirst", "fanout"] if quick else \
+        ["outer", "zip", "consumer", "reduceother", "multi", "internalfirst", "fanout"]
     storages = ["file_array", "dict", "shared_memory_dict"]
     traces = []
     for sc in scenarios:
@@ -137,7 +138,7 @@ def run(ctx: Ctx) -> None:
         parts = [c for c in cases if c["kind"] == "parts"]
         rejects = [c for c in cases if c["kind"] == "reject"]
         rng.shuffle(parts)
-        chosen = parts[: (40 if quick else len(parts))]
+        chosen = parts[: (30 if quick else len(parts))]
         ctx.extra.setdefault("histories", {})[sc] = {"universe": len(parts), "run": len(chosen), "rejects": len(rejects)}
         for k, c in enumerate(chosen + rejects):
             st = storages[k % 2] if k % 9 else "shared_memory_dict"
@@ -147,7 +148,7 @@ def run(ctx: Ctx) -> None:
     for t in traces:
         c = t["meta"]["case"]
         ctx.case({"d": t["desc"], "c": c, "s": t["meta"]["storage"]}, nontrivial=c["kind"] == "parts" and len(c["parts"]) >= 2)
-    mid = next(t for t in traces if t["meta"]["case"]["kind"] == "parts" and len(t["meta"]["case"]["parts"]) == 2)
+    mid = next(t for t in traces if t["meta"]["case"]["kind"] == "parts" and len(t["meta"]["case"]["parts"]) >= 2)
     ctx.sample({"parts": mid["meta"]["case"]["parts"], "storage": mid["meta"]["storage"],
                 "events": [(e["e"], e["f"]) if e["e"] != "stored" else ("stored", len(e["disk"])) for e in mid["ev"]]})
     rej = validate_traces(ctx, "TraceMapRun", traces, "parts", invariants=["InvTypeOK", "InvDoneStored"], strip=STRIP, chunk=60)
